@@ -65,6 +65,10 @@ def main():
         exp = os.path.join(a.outdir, f"change{k}_expected.txt")
         notes = os.path.join(a.outdir, f"change{k}_notes.txt")
         meta = {"property": a.pid, "change": k, "confirmed": {}, "checks": {}}
+        done = os.path.join(VERIF, "seeded", f"{a.pid}-{k}", "meta.json")
+        if os.path.isfile(done) and time.time() - os.path.getmtime(done) < 6 * 3600 and not os.environ.get("SEEDTEST_REDO"):
+            print(f"=== {a.pid} change {k}: processed less than 6 h ago, skipped (SEEDTEST_REDO=1 to force)")
+            continue
         print(f"=== {a.pid} change {k}")
         # ---- 1. confirm in the scratch worktree
         sh("git checkout -- .", cwd=wt)
